@@ -594,7 +594,7 @@ def _ws(rng, style, newline):
     if r < 0.8:
         return ""
     if r < 0.9:
-        return rng.choice(["  ", "\t", " \t ", newline + newline, "\r\n", "\r", " ", " "])
+        return rng.choice(["  ", "\t", " \t ", newline + newline, "\r\n", "\r", " ", " "])
     return newline
 
 
